@@ -60,3 +60,127 @@ def sqrt_ratio_inputs(rng, n_random):
     for _ in range(n_random):
         pairs.append((rand_field(rng, Q), rand_field(rng, Q)))
     return pairs
+
+# ---------------------------------------------------------------- roots of small polynomials mod Q (Cantor-Zassenhaus), used to find
+# Elligator inputs r0 whose inner square-root argument hits a prescribed value
+def _pmod(a, f):
+    a = a[:]
+    while len(a) >= len(f):
+        c = a[-1] * pow(f[-1], -1, Q) % Q
+        if c:
+            for i in range(len(f)): a[len(a) - len(f) + i] = (a[len(a) - len(f) + i] - c * f[i]) % Q
+        a.pop()
+    while a and a[-1] == 0: a.pop()
+    return a
+def _pmul(a, b, f):
+    if not a or not b: return []
+    r = [0] * (len(a) + len(b) - 1)
+    for i, x in enumerate(a):
+        if x:
+            for j, y in enumerate(b): r[i + j] = (r[i + j] + x * y) % Q
+    return _pmod(r, f)
+def _ppow(a, e, f):
+    r = [1]; a = _pmod(a, f)
+    while e:
+        if e & 1: r = _pmul(r, a, f)
+        a = _pmul(a, a, f); e >>= 1
+    return r
+def _pgcd(a, b):
+    while b: a, b = b, _pmod(a, b)
+    if a:
+        c = pow(a[-1], -1, Q); a = [x * c % Q for x in a]
+    return a
+def poly_roots(f, rng):
+    """all roots in F_Q of the polynomial with coefficient list f (lowest degree first)"""
+    f = _pmod(f[:], [0] * 0 + [1]) if False else f[:]
+    while f and f[-1] % Q == 0: f.pop()
+    if len(f) < 2: return []
+    xq = _ppow([0, 1], Q, f)
+    d = xq[:] + [0] * max(0, 2 - len(xq)); d[1] = (d[1] - 1) % Q
+    while d and d[-1] == 0: d.pop()
+    g = _pgcd(f, d) if d else f
+    roots = []
+    def split(g):
+        if len(g) <= 1: return
+        if len(g) == 2: roots.append((-g[0]) * pow(g[1], -1, Q) % Q); return
+        while True:
+            c = rng.below(Q)
+            h = _ppow([c, 1], (Q - 1) // 2, g); h = h + [0] * max(0, 1 - len(h)); h[0] = (h[0] - 1) % Q
+            while h and h[-1] == 0: h.pop()
+            u = _pgcd(g, h) if h else g
+            if 1 < len(u) < len(g):
+                split(u); q, _ = [], None
+                # g / u by repeated subtraction (degrees are tiny)
+                rem = g[:]; quo = [0] * (len(g) - len(u) + 1)
+                for i in range(len(g) - len(u), -1, -1):
+                    cq = rem[i + len(u) - 1] * pow(u[-1], -1, Q) % Q; quo[i] = cq
+                    for j in range(len(u)): rem[i + j] = (rem[i + j] - cq * u[j]) % Q
+                split(quo); return
+    split(g)
+    return roots
+
+def elligator_preimages(t, rng):
+    """all r0 with  num(r)*den(r) = t  for r = ZETA*r0^2  (the argument of the square root inside the Elligator map)"""
+    A = Q - 1
+    def pm(a, b):
+        r = [0] * (len(a) + len(b) - 1)
+        for i, x in enumerate(a):
+            for j, y in enumerate(b): r[i + j] = (r[i + j] + x * y) % Q
+        return r
+    num = [(A - 2 * D) % Q, (A - 2 * D) % Q]                         # (r + 1)(a - 2d)
+    den = pm([(-(D - A)) % Q, D % Q], [(-D) % Q, (D - A) % Q])        # (d r - (d - a))((d - a) r - d)
+    f = pm(num, den); f[0] = (f[0] - t) % Q
+    out = []
+    for r in poly_roots(f, rng):
+        v = r * pow(ZETA, -1, Q) % Q
+        if pow(v, (Q - 1) // 2, Q) in (0, 1):
+            from . import pyref
+            r0 = pyref.sqrt(v)
+            if r0 is not None: out += [r0, (Q - r0) % Q]
+    return out
+
+def decode_preimages(t, rng):
+    """all s with  u_2*u_1^2 = t  (u_1 = 1 - s^2, u_2 = u_1^2 - 4 d s^2): the argument of the square root inside decoding"""
+    def pm(a, b):
+        r = [0] * (len(a) + len(b) - 1)
+        for i, x in enumerate(a):
+            for j, y in enumerate(b): r[i + j] = (r[i + j] + x * y) % Q
+        return r
+    u1 = [1, Q - 1]                                   # 1 - w,  w = s^2
+    u1sq = pm(u1, u1)
+    u2 = u1sq[:]; u2[1] = (u2[1] - 4 * D) % Q
+    f = pm(u2, u1sq); f[0] = (f[0] - t) % Q
+    out = []
+    from . import pyref
+    for w in poly_roots(f, rng):
+        s = pyref.sqrt(w)
+        if s is not None: out += [s, (Q - s) % Q]
+    return out
+
+_SPECIAL_S = {}
+def special_decode_strings(rng, n):
+    """field elements s (as integers) whose decoding runs the square root on an argument with a structured 2-Sylow component"""
+    import os, json
+    seed0 = int(os.environ.get('VERIF_SEED', '1'))
+    key = (n, seed0)
+    cache = os.path.join(os.path.dirname(os.path.dirname(os.path.abspath(__file__))), '.cache', 'special_decode_%d_%d.json' % (seed0, n))
+    if key not in _SPECIAL_S and os.path.exists(cache):
+        try: _SPECIAL_S[key] = json.load(open(cache))
+        except Exception: pass
+    if key not in _SPECIAL_S:
+        from .core import Rng
+        out = []; prng = Rng(seed0).fork('decode-preimages')      # a deterministic function of the run seed only (cached on disk)
+        for n_, d_ in sqrt_ratio_inputs(prng, 0):
+            if n_ % Q == 0 or d_ % Q == 0: continue
+            # the 2-Sylow component is what matters: multiply by odd-order elements until the argument has a preimage
+            for attempt in range(6):
+                u = pow(prng.below(Q - 2) + 2, 2**47, Q) if attempt else 1
+                pre = decode_preimages(d_ * pow(n_, -1, Q) * u % Q, prng)
+                ev = [s for s in pre if s % 2 == 0]
+                if ev: out += ev[:1] + [s for s in pre if s % 2 == 1][:1]; break
+            if len(out) >= n: break
+        _SPECIAL_S[key] = out
+        try:
+            os.makedirs(os.path.dirname(cache), exist_ok=True); json.dump(out, open(cache, 'w'))
+        except Exception: pass
+    return _SPECIAL_S[key]
